@@ -1785,6 +1785,8 @@ class Gen(object):
             # an invitation, then the channel dies and is re-created by somebody else as +i / +x: the old invitation
             # must not open the new channel
             M(o, b"INVITE %s %s" % (x.nick or b"x", c))
+            if r.random() < 0.6:
+                self.entries.append({"k": "S"})      # save + load between the invitation and the death of the channel
             for u in self._alive(True):
                 if lc in u.chans:
                     M(u, b"PART " + c)
